@@ -143,6 +143,24 @@ def world_layout(rng, n):
     return [list(p) for _ in range(n)]
 
 
+GEO_CUTS = [0, 1, 2, 3, 3, 4, 5, 6, 8, 10, "1/2", "7/2", "none"]
+
+
+def geo_centre(rng, pos, floats):
+    """centre of a GEOMETRIC extraction. Exact stream: at a rational planimetric distance of every node of the layout — the place
+    of a node (any altitude: distance2DTo ignores it), or any point of the line when the nodes are on a horizontal / vertical line.
+    Float stream: anywhere on the 1/16 lattice."""
+    if floats:
+        return [rng.randint(0, 128) / 16.0, rng.randint(0, 128) / 16.0, rng.choice([0.0, 0.0, rng.randint(0, 64) / 16.0])]
+    u = rng.choice([0, 0, 0, 7, "5/2"])
+    if all(Fraction(nc.num(q[1])) == Fraction(nc.num(pos[0][1])) for q in pos) and rng.random() < 0.6:
+        return [rng.choice([0, 1, 2, 3, 4, 5, 6, "1/2", "9/2", -2, 9]), pos[0][1], u]
+    if all(Fraction(nc.num(q[0])) == Fraction(nc.num(pos[0][0])) for q in pos) and rng.random() < 0.6:
+        return [pos[0][0], rng.choice([0, 1, 2, 3, 4, 5, "3/2", -1, 8]), u]
+    q = rng.choice(pos)
+    return [q[0], q[1], u]
+
+
 def fsqrt(q):
     """exact square root of a rational that is a square"""
     import math
@@ -242,11 +260,17 @@ def random_world(rng, floats=False):
             ops.append([k, ["p", cut()]]); S["prep"] = True
         elif r < 0.96 and S["prep"]:
             ops.append([k, [rng.choice(["q", "q", "h"]), rng.choice(nodes), rng.choice(nodes), obj()]])
-        else:
+        elif r < 0.97:
             ops.append([k, ["s", rng.choice(nodes), cut(), obj()]])
+        elif rng.random() < 0.8:
+            # sub_network(ENUCoords, radius, "GEOMETRIC"): the centre at a rational planimetric distance of every node (exact stream)
+            ops.append([k, ["g", geo_centre(rng, net["pos"], floats), rng.choice(GEO_CUTS)]])
+        else:
+            # the centre given as a Node object / an id: the code raises (see Model/GraphAStar.lean, WOp.subGeo)
+            ops.append([k, ["G", rng.choice(nodes), rng.choice(GEO_CUTS), obj()]])
     if floats:      # cut-offs as floats; a third of them off the integers
         for _, op in ops:
-            i = {"d": 3, "r": 3, "l": 2, "a": 1, "p": 1, "s": 2}.get(op[0])
+            i = {"d": 3, "r": 3, "l": 2, "a": 1, "p": 1, "s": 2, "g": 2, "G": 2}.get(op[0])
             if i is not None and op[i] != "none":
                 op[i] = float(Fraction(op[i])) if rng.random() < 0.6 else rng.uniform(0, 12)
     return {"kind": "fworld" if floats else "world", "nets": nets, "ops": ops}
@@ -298,7 +322,8 @@ def json_op(op):
     return "%s(%s)" % ({"n": "addNode", "e": "addEdge", "r": "run_routing_forward", "d": "shortest_distance", "l": "shortest_distance[list]",
                         "a": "all_shortest_distances", "p": "prepare", "q": "prepared_shortest_distance",
                         "h": "has_prepared_shortest_distance", "s": "sub_network", "v": "save_prep+load_prep",
-                        "c": "Network", "m": "setRoutingMethod", "w": "setAStarWeight", "x": "sub_network[kept]", "W": "edge.weight="}[op[0]], ",".join(str(x) for x in op[1:]))
+                        "c": "Network", "m": "setRoutingMethod", "w": "setAStarWeight", "x": "sub_network[kept]", "W": "edge.weight=",
+                        "g": "sub_network[GEOMETRIC,coords]", "G": "sub_network[GEOMETRIC,node]"}[op[0]], ",".join(str(x) for x in op[1:]))
 
 
 def dtok(x):
@@ -448,6 +473,10 @@ class SessOracle:
         end = pos + (1 if has_dump else 0)
         if r == "err" and k in "rdlsx" and any(v is not None and v not in nodes for v in ([op[1], op[2]] if k in "rd" else [op[1]])):
             return None, end     # a node this network does not hold (see SessRunner.call): the call was not made
+        if k == "G" and r == "err":
+            # sub_network(<Node or id>, cut, "GEOMETRIC") raised (AttributeError: the code asks the node's ID for `.coord`):
+            # nothing was returned, nothing to judge — the statement is about reported distances (the model answers `err` too)
+            return None, end
         if isinstance(r, str) and r not in ("ok",):
             return "%s: %s" % (what, r), end
         if k == "n":
@@ -548,7 +577,7 @@ class SessOracle:
                     return "%s = %s, expected the prepared distance %s" % (what, r[1], nc.tok(D[key][0])), end
         elif k == "x":
             pass        # the returned network becomes a member of the family, judged on its own edge list (`extracted`)
-        elif k == "s":
+        elif k in ("s", "g", "G"):
             # the returned object is a Network: its own distances must be right (its Node objects are shared with `net`)
             ids, eids, probe = r[1], r[2], r[3]
             sub_edges = [e for e in edges if e[0] in eids]
@@ -821,6 +850,22 @@ class SessRunner:
             # searches on the returned network (it shares the Node objects with `net`), then `net` goes on
             probe = [[dtok(sub.shortest_distance(a, b)) for b in ids] for a in ids]
             r = ["s", [unlab(x) for x in ids], list(sub.getEdgesId()), probe]
+        elif k in ("g", "G"):
+            # GEOMETRIC extraction (no spatial index on the network): centre = coordinates (g) or a Node object / an id (G)
+            cutv = 1e300 if op[2] == "none" else nc.pynum(op[2])
+            if k == "G" and self.lab(op[1]) not in net.NODES:
+                r = "err"       # a node this network does not hold: not called (as for the other calls)
+            else:
+                try:
+                    centre = ENUCoords(nc.pynum(op[1][0]), nc.pynum(op[1][1]), nc.pynum(op[1][2])) if k == "g" else arg(op[1], op[3])
+                    sub = net.sub_network(centre, cutv, "GEOMETRIC", verbose=False)
+                    ids = sub.getNodesId()
+                    probe = [[dtok(sub.shortest_distance(a, b)) for b in ids] for a in ids]
+                    r = ["s", [unlab(x) for x in ids], list(sub.getEdgesId()), probe]
+                except AttributeError:
+                    if k == "g":
+                        raise
+                    r = "err"
         elif k == "x":
             # sub_network whose result is KEPT by the caller (it becomes a member of the family: see impl_fam)
             self.extracted = net.sub_network(arg(op[1], op[3]), 1e300 if op[2] == "none" else nc.pynum(op[2]), verbose=False)
@@ -856,6 +901,12 @@ class P(Prop):
         (M, "TV.C06.output_dict_entries_sound", "every output_dict entry of any search (any target, any cut-off) is the true distance of its key, within the cut-off; entries = visited nodes"),
         (M, "TV.C06.dictionary_accumulates", "all_shortest_distances / prepare on a dictionary with earlier entries: keys within the cut-off get the true distance, all other keys keep their value (any number of calls)"),
         (M, "TV.C06.sub_network_edges", "sub_network(s, cut, TOPOLOGIC) keeps exactly the edges whose two ends are within the cut-off of s"),
+        (M, "TV.C06.sub_network_distances", "distances on the network sub_network returns, any selection rule: shortest_distance(s,t) there = the minimum over the parent's permitted walks that stay inside the extract (sentinel iff none); never below the parent's distance; equal to it iff a shortest walk of the parent stays inside"),
+        (M, "TV.C06.sub_network_topologic_is_extract", "the TOPOLOGIC result is such an extract (keep = both ends visited), so sub_network_distances applies to it"),
+        (M, "TV.C06.sub_network_topologic_source_distances", "on sub_network(s, cut, TOPOLOGIC) the distance from s to every node within the cut-off is the parent's distance"),
+        (M, "TV.C06.sub_network_geometric_edges", "sub_network(centre, cut, GEOMETRIC) (no spatial index) keeps exactly the edges with an end within the planimetric distance cut of the centre"),
+        (M, "TV.C06.sub_network_geometric_distances", "on sub_network(centre, cut, GEOMETRIC): shortest_distance = minimum over the parent's walks using only edges with an end within cut of the centre; >= the parent's distance; equal iff a shortest walk of the parent uses only such edges, in particular when all its vertices are within cut"),
+        (M, "TV.C06.sub_network_geometric_call", "sub_network(.., GEOMETRIC) as a call on an object of a program: coordinates -> the edges above, object left exactly as it was (no search, no flag touched); a Node object or an id as centre -> the code raises"),
         (M, "TV.C06.search_starts_clean", "__resetFlags + source.poids = 0 yields the initial labelling whatever flags earlier calls left on the nodes"),
         (M, "TV.C06.session_invariant", "after any sequence of addNode / addEdge / searches / all_shortest_distances / prepare / sub_network calls the object satisfies the session invariant"),
         (M, "TV.C06.session_answers_pure", "in any state reached by any call sequence every call answers with the pure function of the current graph (no trace of earlier searches)"),
@@ -884,6 +935,7 @@ class P(Prop):
         (M, "TV.C06.astar_heuristic_consistent", "Node.distanceTo is the Euclidean distance (triangle inequality proved, any sqrt that is a square root on an ordered field): with 0 <= astar_wgt and every permitted arc weighing at least astar_wgt x the straight-line distance of its ends (the oracle's predicate) the heuristic towards any target is consistent and smallest at the target"),
         (M, "TV.C06.world_astar_metric_distance_correct", "the property for A* at full strength, hypotheses on the configuration only: in any program, on an A* object with 0 <= astar_wgt and arcs >= astar_wgt x straight-line length, shortest_distance(s,t[,cut]) = the minimum over permitted walks, sentinel iff none, true distance whenever within the cut-off"),
         (M, "TV.C06.world_astar_call_is_pure", "in any state of such a program a search with a target on an A* object answers, and fills output_dict, as the pure A* search on its current graph (flags of earlier searches are reset)"),
+        (M, "TV.C06.astar_cut_needs_smallest_at_target", "the hypothesis h(t) <= h(v) of astar_cut does not follow from consistency + h(t) = 0: a 4-node network with a consistent heuristic, 0 at the target, negative elsewhere, where A* with cut-off 7 reports the sentinel for a distance of 5"),
         (M, "TV.C06.astar_old_inflates", "what fix c78e3ab repaired: on the road 0-10-1-10-2 (consistent heuristic) the PRE-FIX loop (HOld: poids = g + h) reported 30; the model of the present code, Dijkstra and the true distance are 20, also under the cut-off 20"),
     ]
     partial = []
@@ -891,7 +943,8 @@ class P(Prop):
                        "which IEEE round-to-nearest addition has on non-NaN doubles; they are stated with Mathlib's ordered-monoid classes, so the instance for IEEE doubles is not constructed in Lean "
                        "(the float stream compares with exact rational distances at 1e-9 relative)",
                        "save_prep / load_prep are modelled as 'the dictionary read back is the dictionary written' (numpy's pickle is exercised by the sessions, not modelled); "
-                       "sub_network in GEOMETRIC mode is outside the model; in the family model (shared Node objects) every member routes with Dijkstra "
+                       "sub_network in GEOMETRIC mode is modelled for a network WITHOUT spatial index (to_run = every edge) and driven in the world streams only (the objects that have coordinates); "
+                       "with a spatial index (to_run = spatial_index.neighborhood(...)) it is outside the model; in the family model (shared Node objects) every member routes with Dijkstra "
                        "(setRoutingMethod on a member of a family is not modelled: the world model has the settings, with private Node objects)",
                        "A*: exactness is proved in exact arithmetic (ordered cancellative monoid); with float weights the g + h comparisons are subject to rounding (float world stream: 1e-9 relative). "
                        "sqrt is a parameter of the model, assumed to be a square root on the non-negative elements of an ordered field (IsSqrt; the Euclidean triangle inequality is proved from that); A* with a heuristic that is NOT consistent is outside the statement "
@@ -904,6 +957,8 @@ class P(Prop):
                 "before recording, 'other end' rule, visite guard, strict < relaxation, output_dict), shortest_distance (pair and list form, ids or Node objects, with output_dict), "
                 "all_shortest_distances (fresh or caller's dictionary), prepare, prepared_shortest_distance, has_prepared_shortest_distance, sub_network (TOPOLOGIC) — "
                 "as pure functions (Model/Graph.lean) and as a state machine over call sequences on one object (Model/GraphSession.lean); "
+                "sub_network(centre, cut, 'GEOMETRIC') -> __sub_network_geometric on a network without spatial index, ENUCoords.distance2DTo / norm2D, Python's min, the `> cut` test, "
+                "the isinstance(source, Node) / str front end with __correctInputNode (which makes every Node / id centre raise) — WOp.subGeo, subEdgesGeo in Model/GraphAStar.lean, on the objects of a world; "
                 "several Network objects holding the SAME Node objects — what sub_network returns (__sub_network_routing: sub_net.addEdge(e, e.source, e.target)) and what a caller "
                 "obtains by filling two networks from one pool of nodes: one common store of poids / visite / antecedent flags, __resetFlags over the calling network's own NODES only, "
                 "the loop with the explicit priority_dict on whatever the store holds; Edge.weight as a live attribute of Edge objects shared by a network and its extracts "
@@ -938,6 +993,10 @@ class P(Prop):
             "for the value, for every dictionary entry written and for the label of every node run_routing_forward marked visited (the class of the former finding astar-label-accumulates-heuristic, "
             "repaired by c78e3ab: always generated, judged like any other input; its witnesses are corpus cases); "
             "A* with a target otherwise (documented as approximate) -> sentinel iff unreachable when there is no cut-off, and never below the minimum. "
+            "About 3% of the calls of a world are sub_network(.., 'GEOMETRIC'): centre = ENUCoords at a node's place (any altitude) or anywhere on the line of a collinear layout "
+            "(exact stream: every planimetric distance rational), radius in 0..10 / none; the returned network's node ids and edge ids are compared with the model and "
+            "shortest_distance between every two of its nodes is judged against Floyd-Warshall on the edges it holds; a fifth of them pass a Node object or an id as centre "
+            "(the code raises AttributeError, the model answers err, nothing is judged). "
             "Float worlds: the same with nodes anywhere on a 1/16 lattice in the plane or in space (irrational distances, sqrt = IEEE sqrt), float weights (metric x 1..3 or arbitrary, zeros), "
             "float astar_wgt and cut-offs; model instantiated at Float and compared bit for bit, oracle in exact rationals at 1e-9 relative. "
             "Every case is evaluated on freshly executed definitions of network.py / utils.py "
@@ -1072,7 +1131,8 @@ class P(Prop):
         if case["kind"] in ("world", "fworld"):
             tg = world_regimes(case)
             return {"kind": case["kind"], "networks": sum(1 for _, o in case["ops"] if o[0] == "c"),
-                    "targeted_searches": "+".join(k for k, v in sorted(tg.items()) if v) or "none"}
+                    "targeted_searches": "+".join(k for k, v in sorted(tg.items()) if v) or "none",
+                    "geometric_sub_network": any(o[0] in "gG" for _, o in case["ops"])}
         if case["kind"] == "fam":
             ks = [o[0] for _, o in case["ops"]]
             # searches on a member after another member of the family has searched since this member's last search
@@ -1113,7 +1173,7 @@ class P(Prop):
             for k, o in case["ops"]:
                 if o[0] == "e":
                     seen.add(k)
-                if k in seen and o[0] in "dlarps":
+                if k in seen and o[0] in "dlarpsg":
                     return True
             return False
         if case["kind"] == "fam":
@@ -1351,6 +1411,10 @@ class P(Prop):
                     toks.append("%d:m,%d" % (k, op[1]))
                 elif op[0] == "w":
                     toks.append("%d:w,%s" % (k, fmt(op[1])))
+                elif op[0] == "g":
+                    toks.append("%d:g,%s,%s" % (k, ",".join(fmt(c) for c in op[1]), "none" if op[2] == "none" else fmt(op[2])))
+                elif op[0] == "G":
+                    toks.append("%d:G,%d,%s" % (k, op[1], "none" if op[2] == "none" else fmt(op[2])))
                 else:
                     sub = self.requests({"kind": "sess", "n": 0, "ops": [op], "fmt": fmt})[0].split(" ")[2]
                     toks += ["%d:%s" % (k, t) for t in sub.split(";")]
